@@ -525,6 +525,23 @@ func (vc *VC) knownGlobal(base string) (Sym, bool) {
 				}
 				return sv{c}, true
 			}
+			if _, isSl := t.Underlying().(*types.Slice); isSl {
+				// a constant slice variable: its header never changes (its elements live in the ordinary element heap)
+				c := "cg_" + sanitize(name)
+				if !vc.declared[c] {
+					vc.declared[c] = true
+					for _, suf := range []string{"_arr", "_off", "_len", "_cap"} {
+						vc.emit(fmt.Sprintf("(declare-const %s%s Int)", c, suf))
+					}
+					vc.emit(fmt.Sprintf("(assert (and (<= 0 %s_arr) (< %s_arr %s) (<= 0 %s_off) (<= 0 %s_len) (<= %s_len %s_cap) (<= (+ %s_off %s_cap) %s) (=> (= %s_arr 0) (= %s_cap 0))))", c, c, vc.entry.alloc, c, c, c, c, c, c, maxSliceLen, c, c))
+					for _, d := range vc.eng.db.Structural {
+						if d.Kind == "initvalue" && d.Name == name {
+							vc.emit(fmt.Sprintf("(assert (= %s_len %d))", c, len(d.Vals)))
+						}
+					}
+				}
+				return slv{c + "_arr", c + "_off", c + "_len", c + "_cap"}, true
+			}
 		}
 	}
 	switch base {
